@@ -312,6 +312,35 @@ func corrC12(r *Run) {
 	for k, it := range corpusPDUs(ts, 3, int(r.Seed%3)) {
 		one(it.t, it.p, 1+2*k, false, "/loaded-content")
 	}
+	// dense sweeps: every message length 0..140 x every way the short message can be written, every C-string / address length
+	// 0..66, every TLV length 0..300 and around 512 / 1024 — frame lengths crossing every capacity step of a growing buffer
+	for _, part := range []string{"message", "strings", "tlvs"} {
+		for _, it := range denseSweep(ts, part) {
+			before := clonePDU(it.p)
+			r.SetReplay(replayValue(before))
+			nret, err, w, panicked, pmsg := marshalRec(it.p)
+			r.Count("dense/"+it.what, true, "dense-sweep/"+part)
+			in := "marshal (dense sweep: " + it.what + ") " + it.t.Name + " " + coqValue(before)
+			switch {
+			case panicked:
+				r.Fail("marshal-panic/"+it.t.Name, "Marshal panicked", in, "panic: "+pmsg, "returns normally (value or error)")
+			case err != nil:
+				if len(w.calls) != 0 {
+					r.Fail("marshal-error-but-wrote/"+it.t.Name, "Marshal returned an error after writing to the destination", in, fmt.Sprint(err), "nothing written on error")
+				}
+			default:
+				var frame []byte
+				if len(w.calls) > 0 {
+					frame = w.calls[0]
+				}
+				if len(frame) < 4 || int64(binary.BigEndian.Uint32(frame[:4])) != int64(len(frame)) || nret != int64(len(frame)) {
+					r.Fail("marshal-length/"+it.t.Name, "frame length, command_length and returned count disagree", in,
+						fmt.Sprintf("len=%d returned=%d frame=%s…", len(frame), nret, hex.EncodeToString(frame[:min(len(frame), 16)])),
+						"first four octets = octets written = returned count")
+				}
+			}
+		}
+	}
 	// deterministic sweep of user-data headers on every type that carries a short message
 	sweep := udhSweep()
 	nt := 0
